@@ -68,8 +68,9 @@ def _parse_grammar(description):
 
 
 def _install_module(name, module):
+    sys.modules[name] = module
+
     if '.' not in name:
-        sys.modules[name] = module
         return
 
     parent_name, child_name = name.rsplit('.', 1)
@@ -78,4 +79,5 @@ def _install_module(name, module):
     except ModuleNotFoundError:
         parent_module = types.ModuleType(parent_name)
         _install_module(parent_name, parent_module)
-        setattr(parent_module, child_name, module)
+
+    setattr(parent_module, child_name, module)
